@@ -6,6 +6,6 @@ CONSTANTS
   TblOrd = 2
   TblSize = 3
   TblFull = 2
-  MaxRows = 2
+  Rows = {1, 3}
 INVARIANTS WellFormed Kernel ConstrInv OrderInv Writes Pairs PairsTbl RowSets Dups Expects Emit
 CHECK_DEADLOCK FALSE
